@@ -74,7 +74,9 @@ def apply_and_check(params, text, doc, pi, op, ki, value):
     keys = keys_for(para)
     key = keys[ki]
     fi = lookup(para, key)
-    lib_para = list(doc)[pi]
+    # the scanner numbers the paragraphs that have fields; the library keeps the (empty) element of a paragraph
+    # whose only field was deleted by an earlier step, so library paragraphs are numbered the same way
+    lib_para = [p for p in doc if len(list(p.keys())) > 0][pi]
     before = doc.dump()
     require(before == text, "dump of the document before the edit differs from its text", text=text, got=before)
     if op == 1:     # delete
